@@ -178,9 +178,25 @@ def check(run):
                 owner = [st.targets[0].id for st, v in [(st, v) for n_ in q.walk(M, False) if isinstance(n_, ast.Assign) for st, v in [(n_, n_.value)]]
                          if isinstance(st.targets[0], ast.Name) and q.unparse(v) == '%s.source if isinstance(%s, Transition) else %s.name' % (op, op, op)]
                 owner_expr = '%s.source if isinstance(%s, Transition) else %s.name' % (op, op, op)
-                if 'after' in keys and owner:
-                    run.check(len(owner) == 1 and len(q.assigned_value(M, owner[0])) == 1, r, m.short, 'owning state = source of a transition, else the state itself', 'owner computed differently', M)
-                key_expected = owner[0] if owner else owner_expr
+                key_expected = owner_expr
+                # the key used by the predicates: an expression or a local whose case split must be exactly
+                #   obj.source when obj is a Transition, obj.name otherwise
+                keyexprs = set()
+                for nm_ in ('after', 'idle'):
+                    lam = strip_cast(table.get(nm_)) if table.get(nm_) is not None else None
+                    if isinstance(lam, ast.Lambda):
+                        for x in ast.walk(lam.body):
+                            if isinstance(x, ast.Subscript) and q.unparse(x.value).startswith('self._interpreter._'):
+                                keyexprs.add(q.unparse(x.slice))
+                if 'after' in keys:
+                    okk = len(keyexprs) == 1
+                    if okk:
+                        kx = ast.parse(next(iter(keyexprs)), mode='eval').body
+                        cs = sorted((q.unparse(v), tuple(sorted(a for a in at if 'isinstance' in a[1]))) for v, at in q.cases(M, kx))
+                        want_cs = sorted([(op + '.source', (('truthy', 'isinstance(%s, Transition)' % op, ''),)), (op + '.name', (('falsy', 'isinstance(%s, Transition)' % op, ''),))])
+                        okk = cs == want_cs
+                        key_expected = next(iter(keyexprs))
+                    run.check(okk, r, m.short, 'owning state = source of a transition, else the state itself', 'owner computed differently: %s' % sorted(keyexprs), M)
             for nm, fld in (('after', '_entry_time'), ('idle', '_idle_time')):
                 if nm in table:
                     n += 1
